@@ -293,6 +293,9 @@ impl NetworkProtocol for GraphQLNetworkProtocol {
             })
             .operation_kind;
 
+        #[cfg(feature = "isographlabs_isograph_verif")]
+        isograph_schema::verif::verif_note("opkind", operation_kind.to_string());
+
         generate_query_text(
             operation_kind,
             query_name,
